@@ -665,25 +665,15 @@ func (e *Engine) rangeNext(st *State, fr *Frame, x *ssa.Next) Value {
 		if d.pos >= len(d.str.b) {
 			return TupleVal{tFalse, mkBV(64, 0), mkBV(32, 0)}
 		}
-		b := d.str.b[d.pos]
-		if !st.decide(cmp("bvult", b, mkBV(8, 0x80))) {
-			// multi-byte sequences with concrete bytes could be decoded; symbolic ones are outside the bound
-			if r, n, ok := decodeConcreteRune(d.str.b[d.pos:]); ok {
-				nd := *d
-				nd.pos += n
-				st.heapSet(it.obj, &nd)
-				return TupleVal{tTrue, mkBV(64, uint64(d.pos)), mkBV(32, uint64(r))}
-			}
-			panic(pathKill{"bound", "non-ASCII byte in range-over-string"})
-		}
+		r, n := decodeRuneSym(st, d.str.b[d.pos:])
 		nd := *d
-		nd.pos++
+		nd.pos += n
 		st.heapSet(it.obj, &nd)
-		return TupleVal{tTrue, mkBV(64, uint64(d.pos)), mkZext(b, 32)}
+		return TupleVal{tTrue, mkBV(64, uint64(d.pos)), r}
 	}
 	if d.pos >= len(d.m.keys) {
 		tup := x.Type().(*types.Tuple)
-		return TupleVal{tFalse, zeroValue(tup.At(1).Type()), zeroValue(tup.At(2).Type())}
+		return TupleVal{tFalse, zeroOrNil(tup.At(1).Type()), zeroOrNil(tup.At(2).Type())}
 	}
 	nd := *d
 	nd.pos++
@@ -1127,17 +1117,9 @@ func (e *Engine) convert(st *State, v Value, from, to types.Type) Value {
 			if widthOf(t.Elem()) != 8 { // string -> []rune (ASCII within the bound)
 				arr := make([]Value, 0, len(s.b))
 				for i := 0; i < len(s.b); {
-					b := s.b[i]
-					if !st.decide(cmp("bvult", b, mkBV(8, 0x80))) {
-						if r, n, ok := decodeConcreteRune(s.b[i:]); ok {
-							arr = append(arr, mkBV(32, uint64(r)))
-							i += n
-							continue
-						}
-						panic(pathKill{"bound", "non-ASCII byte in []rune(string)"})
-					}
-					arr = append(arr, mkZext(b, 32))
-					i++
+					r, n := decodeRuneSym(st, s.b[i:])
+					arr = append(arr, r)
+					i += n
 				}
 				id := st.alloc(ArrayVal{arr})
 				return SliceVal{obj: id, ln: len(arr), cp: len(arr)}
@@ -1160,14 +1142,7 @@ func (e *Engine) runeToStr(st *State, x *Term) StrVal {
 	if x.isC {
 		return concreteStr(string(rune(sext(x.c, x.w))))
 	}
-	x64 := x
-	if x.w < 64 {
-		x64 = mkZext(x, 64)
-	}
-	if !st.decide(cmp("bvult", x64, mkBV(64, 0x80))) {
-		panic(pathKill{"bound", "string(non-ASCII symbolic rune)"})
-	}
-	return StrVal{[]*Term{mkExtract(7, 0, x)}}
+	return encodeRuneSym(st, x)
 }
 
 func (e *Engine) typeAssert(st *State, x *ssa.TypeAssert, iv IfaceVal) Value {
@@ -1525,4 +1500,11 @@ func (e *Engine) initDeny(p string) bool {
 		return false
 	}
 	return true
+}
+
+func zeroOrNil(t types.Type) Value {
+	if b, ok := t.(*types.Basic); ok && b.Kind() == types.Invalid {
+		return nil
+	}
+	return zeroValue(t)
 }
